@@ -189,6 +189,7 @@ def _html_doc(seed, feature, twin, fmt):
     rng = random.Random(f"html:{seed}")
     tk = Tokens()
     exp = Expect(fmt)
+    exp.literals = ["R and D", "R&D", "R", "D"]   # every non-token visible string this writer emits: the rest of the output must hold no letter or digit (C02 'no text that is not in the source')
     exp.unit_mode = "exact"
     exp.n_units = 1
     exp.join_equality = True
@@ -236,6 +237,7 @@ def build_epub(seed, feature=None, twin=False):
     rng = random.Random(f"epub:{seed}")
     tk = Tokens()
     exp = Expect("epub")
+    exp.literals = []   # every non-token visible string this writer emits: the rest of the output must hold no letter or digit (C02 'no text that is not in the source')
     exp.unit_mode = "exact"
     exp.join_equality = True
     exp.tables_claimed = True
